@@ -17,10 +17,12 @@ def has (j : Json) (k : String) : Bool := (j.getObjVal? k).toOption.isSome
 def optStr (j : Json) (k : String) : Option String :=
   match j.getObjVal? k with | .ok (.str s) => some s | _ => none
 
+/-- the kinds of the rows of the (pinned = regenerated) prefix table `ref2To3`, in its order -/
+def refKinds : List (RK × RK) := [(.def2, .def3), (.resp2, .resp3), (.par2, .par3)]
+
 def prefixes : List (String × RK) :=
-  [("#/definitions/", .def2), ("#/parameters/", .par2), ("#/responses/", .resp2),
-   ("#/components/schemas/", .def3), ("#/components/parameters/", .par3),
-   ("#/components/responses/", .resp3), ("#/components/requestBodies/", .rb3)]
+  (ref2To3.zip refKinds).flatMap (fun (ps, ks) => [(ps.1, ks.1), (ps.2, ks.2)]) ++
+  [("#/components/requestBodies/", .rb3)]
 
 def parseRef (s : String) : RK × String :=
   match prefixes.find? (fun (p, _) => s.startsWith p) with
@@ -46,7 +48,8 @@ def parseSc (j : Json) : Rec Json :=
 
 def parseHd (j : Json) : Hd Json :=
   { ty := optStr j "type", fmt := optStr j "format", nullable := getBool j "nullable",
-    xnull := getBool j "x-nullable", disc := optStr j "discriminator",
+    xnull := getBool j "x-nullable",
+    disc := match optStr j "discriminator" with | some "" => none | o => o,   -- Go: the empty string is "absent"
     req := match j.getObjVal? "required" with | .ok (.arr a) => strs a.toList | _ => [],
     sc := parseSc j }
 
@@ -85,10 +88,22 @@ def parseSec (j : Json) : Sec2 :=
 
 def methods : List String := ["delete", "get", "head", "options", "patch", "post", "put"]
 
+/-- Go reads an absent field and its zero value alike (`summary: ""`, `deprecated: false`, `tags: []`) -/
+def isZero : Json → Bool
+  | .null => true | .str "" => true | .bool false => true | .arr #[] => true | _ => false
+
+def parseMeta (j : Json) : Rec Json :=
+  opMetaFields.filterMap (fun k => match j.getObjVal? k with
+    | .ok v => if isZero v then none else some (k, v)
+    | _ => none)
+
 def parseOp (m : String) (j : Json) : Op2 Json :=
   { method := m, opId := getStr j "operationId", consumes := strs (getArr j "consumes"),
     produces := strs (getArr j "produces"), params := (getArr j "parameters").map parsePRef,
-    responses := (objKVs (getD j "responses" Json.null)).map (fun (k, v) => (k, parseRRef v)) }
+    responses := (objKVs (getD j "responses" Json.null)).map (fun (k, v) => (k, parseRRef v)),
+    info := parseMeta j,
+    -- `security: []` on an operation (no authentication) is a value, an absent `security` is not
+    security := match j.getObjVal? "security" with | .ok (.arr a) => some (.arr a) | _ => none }
 
 def parsePath (p : String) (j : Json) : Path2 Json :=
   { path := p, params := (getArr j "parameters").map parsePRef,
@@ -101,7 +116,8 @@ def parseDoc (j : Json) : Doc2 Json :=
     responses := (objKVs (getD j "responses" Json.null)).map (fun (k, v) => (k, parseRRef v)),
     defs := (objKVs (getD j "definitions" Json.null)).map (fun (k, v) => (k, parseSch v)),
     secs := (objKVs (getD j "securityDefinitions" Json.null)).map (fun (k, v) => (k, parseSec v)),
-    paths := (objKVs (getD j "paths" Json.null)).map (fun (k, v) => parsePath k v) }
+    paths := (objKVs (getD j "paths" Json.null)).map (fun (k, v) => parsePath k v),
+    security := match j.getObjVal? "security" with | .ok (.arr a) => if a.isEmpty then none else some (.arr a) | _ => none }
 
 /-! printing -/
 
@@ -149,13 +165,15 @@ def apiJson (a : Api Json) : Json :=
   jobj [
     ("ops", jarr (a.ops.map (fun o => jobj [("path", o.path), ("method", o.method), ("opId", o.opId),
         ("inputs", jarr (o.inputs.map inputJson)),
-        ("responses", jarr (o.responses.map (fun (k, r) => jobj [("status", k), ("r", respJson r)])))]))),
+        ("responses", jarr (o.responses.map (fun (k, r) => jobj [("status", k), ("r", respJson r)]))),
+        ("meta", jobj o.info), ("security", o.security.getD Json.null)]))),
     ("pathParams", jarr (a.pathParams.map (fun (p, is) => jobj [("path", p), ("inputs", jarr (is.map inputJson))]))),
     ("shared", jarr (a.shared.map (fun (k, i) => jobj [("name", k), ("input", inputJson i)]))),
     ("sharedResponses", jarr (a.sharedResponses.map (fun (k, r) => jobj [("name", k), ("r", respJson r)]))),
     ("defs", jarr (a.defs.map (fun (k, s) => jobj [("name", k), ("schema", aschJson s)]))),
     ("servers", jarr (a.servers.map serverJson)),
-    ("security", jarr (a.security.map (fun (k, s) => jobj [("name", k), ("s", secJson s)])))]
+    ("security", jarr (a.security.map (fun (k, s) => jobj [("name", k), ("s", secJson s)]))),
+    ("securityReq", a.securityReq.getD Json.null)]
 
 /-! references left in a non-v2 form by the round trip -/
 
@@ -205,8 +223,6 @@ def respLosesSchema (produces : List String) : RRef2 Json → Bool
 
 def exclusions (d : Doc2 Json) : List String :=
   let ss := allSchemas d
-  (if ss.any hasDisc then ["DiscriminatorLost"] else []) ++
-  (if ss.any addlRef then ["AddlRefKept"] else []) ++
   (if ss.any addlImpure then ["AddlSubschemaUnconverted"] else []) ++
   (if ss.any (fun s => !noBinary2 s) ||
       ((opParams d) ++ (sharedVals d) ++ pathVals d ++ headerVals d).any (fun p => p.loc != "formData" && p.loc != "body" &&
@@ -269,13 +285,23 @@ def branches (d : Doc2 Json) (excl : List String) : List String :=
     d.responses.flatMap (fun (_, r) => respBranches "sharedresp" r) ++
     d.paths.flatMap (fun p => p.params.flatMap (paramBranches "pathparam") ++ p.ops.flatMap (fun o =>
       ["op." ++ o.method] ++ (if !o.consumes.isEmpty then ["op.consumes"] else []) ++
+      o.info.map (fun (k, _) => "op.info." ++ k) ++
+      (match o.security with | some (.arr #[]) => ["op.security.empty"] | some _ => ["op.security"] | none => []) ++
       (if !o.produces.isEmpty then ["op.produces"] else []) ++
       o.params.flatMap (paramBranches "param") ++ o.responses.flatMap (fun (_, r) => respBranches "resp" r))) ++
     d.secs.map (fun (_, s) => "sec." ++ s.type ++ (if s.flow != "" then "." ++ s.flow else "")) ++
     (if d.loc.host != "" then ["loc.host"] else []) ++ (if d.loc.basePath != "" then ["loc.basePath"] else []) ++
     d.loc.schemes.map (fun s => "loc.scheme." ++ s) ++
+    (if d.security.isSome then ["doc.security"] else []) ++
     (if !d.consumes.isEmpty then ["doc.consumes"] else []) ++ (if !d.produces.isEmpty then ["doc.produces"] else []) ++
-    excl.map (fun e => "excl." ++ e)
+    excl.map (fun e => "excl." ++ e) ++
+    -- which hypotheses of the document-level theorems this input satisfies (the fragments are decidable)
+    (if excl.isEmpty then ["frag.noExclusion"] else []) ++
+    (if docSimple d then ["frag.docSimple"] else []) ++ (if docSimpleBack d then ["frag.docSimpleBack"] else []) ++
+    (if docBody d then ["frag.docBody"] else []) ++ (if docBodyBack d then ["frag.docBodyBack"] else []) ++
+    (if docInputs d then ["frag.docInputs"] else []) ++ (if docInputs d && !docBody d then ["frag.docInputs.only"] else []) ++
+    (if docBody d && !docSimple d then ["frag.docBody.only"] else []) ++
+    (if docBodyBack d && !docSimpleBack d then ["frag.docBodyBack.only"] else [])
   raw.eraseDups
 
 def handle (j : Json) : Json :=
